@@ -128,7 +128,7 @@ def _apply_rules(ed: _Edit, toks, lo, hi, repo, opts, rules, dropped, file):
         k = ci[p]
         t = toks[k]
         # X3 visibility
-        if t.kind == 'ident' and t.text == 'pub':
+        if t.kind == 'ident' and t.text == 'pub' and 'keep_vis' not in opts:
             nk = ci[p + 1] if p + 1 < len(ci) else None
             if nk is not None and toks[nk].kind == 'open' and toks[nk].text == '(':
                 c = rs.match_close(toks, nk)
